@@ -3538,7 +3538,7 @@ spmatrix_ass_subscr(spmatrix* self, PyObject* args, PyObject* value)
       value = (PyObject *)Matrix_NewFromSequence(value, SP_ID(self));
 
     if (!value)
-      PY_ERR_INT(PyExc_NotImplementedError, "invalid type in assignment");
+      PY_ERR_INT(PyExc_TypeError, "invalid type in assignment");
 
     decref_val = 1;
   }
